@@ -93,11 +93,33 @@ def _slot_xml(s):
     return "  <%s%s/>" % (s["kind"], a)
 
 
-def schema_xml(plan):
+TYPES_URL = "file:///sim/schema/c12-types.xml"
+
+
+def types_xml(plan):
+    """src_import: the abstract types and the container type 'box' (whose
+    slots are of abstract types) live in a schema file of their own that the
+    application schema pulls in with <import src=.../>."""
     out = ["<schema>"]
     for a in plan["abstract"]:
         out.append('  <abstracttype name="%s"/>' % a)
     for t in plan["types"]:
+        if t["name"] == "box":
+            out.extend(_type_xml(t, plan["slots"].get("box", ())))
+    out.append("</schema>")
+    return "\n".join(out) + "\n"
+
+
+def schema_xml(plan):
+    out = ["<schema>"]
+    if plan.get("src_import"):
+        out.append('  <import src="c12-types.xml"/>')
+    else:
+        for a in plan["abstract"]:
+            out.append('  <abstracttype name="%s"/>' % a)
+    for t in plan["types"]:
+        if plan.get("src_import") and t["name"] == "box":
+            continue
         out.extend(_type_xml(t, plan["slots"].get(t["name"], ())))
     for p in plan.get("schema_imports", ()):
         # the default component file may be named explicitly: one component
@@ -451,6 +473,9 @@ def generate(rng, tier, index):
             plan["slots"]["$top"].append(
                 {"kind": "multisection", "name": "*", "type": "box",
                  "attr": "at%d" % counter[0]})
+    plan["src_import"] = bool(
+        with_box and rng.random() < 0.5 and all(
+            s_["type"] in plan["abstract"] for s_ in plan["slots"]["box"]))
     # loads
     pkgs = sorted(plan["components"])
     for _ in range(rng.randint(1, 4)):
@@ -615,6 +640,8 @@ def execute(plan):
                 for p, c in plan["components"].items()}
     comp_type_names = {t["name"] for c in plan["components"].values()
                        for t in c["types"]}
+    if plan.get("src_import"):
+        pkgfiles[TYPES_URL] = types_xml(plan)
     with SimWorld(packages=plan["packages"]) as w:
         w.store = dict(pkgfiles)
         w.begin_op("load-schema")
